@@ -251,7 +251,11 @@ class ModuleVistor(NodeVisitor):
             # import cycles (maybe in TYPE_CHECKING blocks). 
             # None bases will be re-resolved in post-processing.
             expandbase = parent.expandName(str_base)
-            baseobj = self.system.objForFullName(expandbase)
+            try:
+                # The base may have been moved by a re-export already.
+                baseobj = self.system.find_object(expandbase)
+            except LookupError:
+                baseobj = None
             
             if not isinstance(baseobj, model.Class):
                 baseobj = None
